@@ -64,6 +64,9 @@ def hierarchies(tier):
     """Yield hierarchies: list of levels; a level is a list of (name, shape)."""
     shapes = list(SHAPES)
     lvl1 = [[]] + [[(NAMES[0][0], s)] for s in shapes] + [[(NAMES[0][0], s), (NAMES[0][1], t)] for s in shapes for t in shapes]
+    # the same two names declared the other way round: other classes of this process have the same field names and kinds
+    # in another declaration order
+    lvl1 += [[(NAMES[0][1], t), (NAMES[0][0], s)] for s in shapes for t in shapes]
     for l1 in lvl1:
         yield [l1]
     for l1 in lvl1:
@@ -268,6 +271,46 @@ def run_hierarchy(rec, h, order):
     forget(mod, names)
 
 
+@dataclass(frozen=True)
+class MixQ:  # plain dataclass mixin contributing a property
+    q: int = 5
+
+
+def run_mixin(rec, base_shape, mro_first, order):
+    """Base(ASTNode) with one field of `base_shape`; D(Base, MixQ) or D(MixQ, Base) with an EMPTY body.  The expected
+    field list of D follows dataclasses.fields() (stdlib) for the order and the spec for the kinds."""
+    mod = types.ModuleType(f"mc_c12_mix_{next(_counter)}")
+    mod.__dict__.update(ASTNode=ASTNode, CL12=CL12, CF12=CF12, dataclass=dataclass, field=dataclasses.field, MixQ=MixQ)
+    sys.modules[mod.__name__] = mod
+    bname, dname = f"GB{next(_counter)}", f"GD{next(_counter)}"
+    bases = f"{bname}, MixQ" if mro_first == "node" else f"MixQ, {bname}"
+    src_b = f"@dataclass(frozen=True)\nclass {bname}(ASTNode):\n    m: {SHAPES[base_shape][1]}\n"
+    src_d = f"@dataclass(frozen=True)\nclass {dname}({bases}):\n    pass\n"
+    hdesc = {"mixin": True, "base_shape": base_shape, "mro_first": mro_first}
+    shape_of = {"m": base_shape, "q": "P", "id": "ID", "content_id": "CID", "origin": "ORIGIN"}
+
+    def fl(cls):
+        return [(f.name, shape_of[f.name]) for f in dataclasses.fields(cls)]
+
+    try:
+        exec(compile(src_b, f"<c12:{bname}>", "exec", dont_inherit=True), mod.__dict__)
+        if order == "base-used-before-derived-is-defined":
+            check_class(rec, mod.__dict__[bname], fl(mod.__dict__[bname]), (0, order), hdesc)
+        exec(compile(src_d, f"<c12:{dname}>", "exec", dont_inherit=True), mod.__dict__)
+    except TypeError as e:
+        rec.count("mixin_layout_not_definable")  # e.g. slot layout conflicts: not pyoak's business
+        del e
+        forget(mod, [bname, dname])
+        return
+    B, D = mod.__dict__[bname], mod.__dict__[dname]
+    seq = [(1, D), (0, B)] if order == "derived-first" else [(0, B), (1, D)]
+    for li, cls in seq:
+        if order == "base-used-before-derived-is-defined" and li == 0:
+            continue
+        check_class(rec, cls, fl(cls), (li, order), hdesc)
+    forget(mod, [bname, dname])
+
+
 def plan(tier, seed):
     return [{"k": i, "of": NSHARDS, "tier": tier} for i in range(NSHARDS)]
 
@@ -294,12 +337,25 @@ def run_shard(cfg):
         for order in (ORDERS if len(h) > 1 else ORDERS[:1]):
             rec.count("states")
             run_hierarchy(rec, h, order)
-    rec.bound = {"levels": 3, "fields_per_level": 2, "flag_combinations": 64}
+    for shape in SHAPES:
+        for mro_first in ("node", "mixin"):
+            for order in ORDERS:
+                idx += 1
+                if idx % cfg["of"] == cfg["k"]:
+                    rec.rank = 10**6 + idx
+                    rec.count("states")
+                    rec.count("nontrivial")
+                    run_mixin(rec, shape, mro_first, order)
+    rec.bound = {"levels": 3, "fields_per_level": 2, "flag_combinations": 64, "mixin_hierarchies": len(SHAPES) * 2}
     return rec.result()
 
 
 def replay(case, cfg):
     rec = Rec(cfg)
+    if isinstance(case["hierarchy"], dict) and case["hierarchy"].get("mixin"):
+        for order in ORDERS:
+            run_mixin(rec, case["hierarchy"]["base_shape"], case["hierarchy"]["mro_first"], order)
+        return rec.result()["violations"]
     h = [[tuple(x) for x in lv] for lv in case["hierarchy"]]
     for order in ORDERS:
         run_hierarchy(rec, h, order)
